@@ -156,7 +156,8 @@ struct Loc {
 
 /// style 0: one item per line; 1: indented, label joined with a following instruction/data, trailing comments,
 /// blank lines; 2: style 0 with a non-ASCII comment line before the first item of each file; 3: style 0 with a
-/// non-ASCII block comment before the item on every item line.
+/// non-ASCII block comment before the item on every item line; 4: style 0 with CR LF line endings (a line is ended by
+/// its LF; the CR before it is an ordinary blank).
 fn render(cfg: &Config, toks: &[&Tok], window: Option<(usize, usize)>, style: u8) -> (Vec<(String, Vec<u8>)>, Vec<Loc>) {
     let mut bufs = [cfg.prologue.clone(), String::new()];
     let mut lines = [cfg.prologue.matches('\n').count(), 0usize];
@@ -214,6 +215,14 @@ fn render(cfg: &Config, toks: &[&Tok], window: Option<(usize, usize)>, style: u8
             lines[f] += 1;
         }
         i += 1;
+    }
+    if style == 4 {
+        for b in bufs.iter_mut() {
+            *b = b.replace('\n', "\r\n");
+        }
+        for l in locs.iter_mut() {
+            l.byte0 += l.line0;
+        }
     }
     let mut files = vec![(FILES[0].to_string(), bufs[0].clone().into_bytes())];
     if window.is_some() {
@@ -1056,7 +1065,9 @@ fn judge_seq(env: &Env, cfg: usize, seq: Vec<usize>, l: &mut Local) {
     judge_variant(env, &Variant { cfg, seq: seq.clone(), window: Some((0, seq.len())), style: 1 }, &env.reduced, l);
     judge_variant(env, &Variant { cfg, seq: seq.clone(), window: None, style: 2 }, &env.reduced, l);
     judge_variant(env, &Variant { cfg, seq: seq.clone(), window: Some((0, 1)), style: 2 }, &env.reduced, l);
-    judge_variant(env, &Variant { cfg, seq, window: None, style: 3 }, &env.reduced, l);
+    judge_variant(env, &Variant { cfg, seq: seq.clone(), window: None, style: 3 }, &env.reduced, l);
+    judge_variant(env, &Variant { cfg, seq: seq.clone(), window: None, style: 4 }, &env.reduced, l);
+    judge_variant(env, &Variant { cfg, seq, window: Some((0, 1)), style: 4 }, &env.reduced, l);
 }
 
 fn make_env() -> Env {
